@@ -1602,49 +1602,53 @@ def separator_inverse(model: Model, R: RuleResult) -> int:
     (Subscripting a concatenation by the recorded indices - a gather - applies the permutation a second time instead.)"""
     cls = model.cls("xitorch/_utils/misc.py", "TensorNonTensorSeparator")
     init, rec = cls.find_method("__init__"), cls.find_method("reconstruct_params")
+    from ..domains.dictsem import DictInterp, Tok, Unsupported, Raised
+    # abstract round trip: split a symbolic argument list, then put fresh tensors back - for every spelling of the two methods
+    T = lambda nm, rg=True: Tok(nm, True, rg)
+    N = lambda nm: Tok(nm, False, False)
+    scenarios = [
+        ("mixed", [T("T1"), N("N1"), T("T2"), T("T3", False), N("N2"), T("T4")]),
+        ("tensor last / first", [N("N1"), T("T1"), T("T2"), N("N2")]),
+        ("all tensors", [T("T1"), T("T2"), T("T3")]),
+        ("no tensors", [N("N1"), N("N2")]),
+    ]
+    selfname = init.params()[0]
     n = 0
-    # split: enumerate positions, each appended to exactly one idx list together with its value
-    loops = [l for l in own_nodes(init.node) if isinstance(l, ast.For)]
-    ok_split = False
-    if len(loops) == 1 and isinstance(loops[0].iter, ast.Call) and ast.unparse(loops[0].iter.func) == "enumerate" and isinstance(loops[0].target, ast.Tuple):
-        iv, pv = (e.id for e in loops[0].target.elts)
-        apps = [(ast.unparse(c.func.value), ast.unparse(c.args[0])) for c in ast.walk(loops[0]) if isinstance(c, ast.Call) and isinstance(c.func, ast.Attribute) and c.func.attr == "append" and c.args]
-        ok_split = sorted(apps) == sorted([("self.tensor_idxs", iv), ("self.tensor_params", pv), ("self.nontensor_idxs", iv), ("self.nontensor_params", pv)])
-    n += 1
-    if ok_split:
-        R.ok(init.fq, "split: position i goes to exactly one of tensor_idxs / nontensor_idxs together with its value")
-    else:
-        R.bad(init, init.node, "the separator must record every position in exactly one index list beside its value")
-    # inverse: scatter stores
-    groups = {"self.tensor_idxs": rec.params()[1], "self.nontensor_idxs": rec.params()[2]}
-    rets = [r for r in own_nodes(rec.node) if isinstance(r, ast.Return)]
-    final = rets[-1].value if rets else None
-    outname = final.id if isinstance(final, ast.Name) else None
-    for idxs, vals in groups.items():
+    for label, params in scenarios:
         n += 1
-        ok = False
-        for l in own_nodes(rec.node):
-            if isinstance(l, ast.For) and isinstance(l.iter, ast.Call) and ast.unparse(l.iter.func) == "zip" and [ast.unparse(a) for a in l.iter.args] == [idxs, vals] \
-                    and isinstance(l.target, ast.Tuple) and len(l.body) == 1 and isinstance(l.body[0], ast.Assign):
-                a = l.body[0]
-                iv, pv = (e.id for e in l.target.elts)
-                t = a.targets[0]
-                ok = isinstance(t, ast.Subscript) and ast.unparse(t.value) == outname and ast.unparse(t.slice) == iv and ast.unparse(a.value) == pv
-        # any *load* subscript by the recorded indices is a gather
-        gathers = [s for s in ast.walk(rec.node) if isinstance(s, ast.Subscript) and isinstance(s.ctx, ast.Load) and
-                   any(isinstance(x, ast.Attribute) and ast.unparse(x) == idxs for x in ast.walk(s.slice))]
-        if ok and not gathers:
-            R.ok(rec.fq, "reconstruct: out[idx] = value for (idx, value) in zip(%s, %s)" % (idxs, vals))
-        else:
-            R.bad(rec, rec.node, "reconstruct_params must scatter the %s group back with `out[idx] = p for idx, p in zip(%s, %s)`; gathering by the recorded indices applies "
-                  "the permutation instead of its inverse (wrong order whenever it is not an involution)" % (idxs.split(".")[1].split("_")[0], idxs, vals))
-    # the result has nparams slots, or is the tensor list itself when everything is a tensor
-    src = ast.unparse(rec.node)
-    n += 1
-    if "for _ in range(self.nparams)" in src and "if self.alltensors:\n        return %s" % rec.params()[1] in src.replace("    " * 2, "    ") or ("range(self.nparams)" in src and "self.alltensors" in src):
-        R.ok(rec.fq, "the result has nparams slots (or is the tensor list itself when every argument is a tensor)")
-    else:
-        R.bad(rec, rec.node, "the reconstructed list must have exactly nparams slots")
+        try:
+            it = DictInterp({init.params()[1]: list(params), **({init.params()[2]: True} if len(init.params()) > 2 else {})})
+            it.call_function(init.node)
+            state = {k: v for k, v in it.env.items() if k.startswith(selfname + ".")}
+            want_t = [p_ for p_ in params if p_.is_tensor and p_.requires_grad]
+            got_t = None
+            gt = cls.find_method("get_tensor_params")
+            if gt is not None:
+                it2 = DictInterp(dict(state))
+                got_t = it2.call_function(gt.node)
+            if got_t is not None and [x.name for x in got_t] != [x.name for x in want_t]:
+                R.bad(init, init.node, "%s: the tensor group is %s, expected the differentiable tensors in argument order %s" % (label, got_t, want_t))
+                continue
+            fresh = [Tok(p_.name + "'", True, True) for p_ in want_t]
+            it3 = DictInterp(dict(state))
+            rsel = rec.params()[0]
+            it3.env.update({k.replace(selfname + ".", rsel + ".", 1): v for k, v in state.items()})
+            it3.env[rec.params()[1]] = list(fresh)
+            if len(rec.params()) > 2:
+                it3.env[rec.params()[2]] = None
+            res = it3.call_function(rec.node)
+            fr = iter(fresh)
+            want = [next(fr) if (p_.is_tensor and p_.requires_grad) else p_ for p_ in params]
+            if not isinstance(res, (list, tuple)) or [x.name for x in res] != [x.name for x in want]:
+                R.bad(rec, rec.node, "%s: reconstruct_params(%s) gives %s, expected %s: the tensors are not put back at the positions they were taken from "
+                      "(every Function that separates its arguments then pairs gradients with the wrong arguments)" % (label, fresh, res, want))
+            else:
+                R.ok(rec.fq, "%s: split and reconstruct are inverse (%s -> %s)" % (label, params, res))
+        except Unsupported as e:
+            R.undecided(rec, rec.node, "cannot interpret TensorNonTensorSeparator abstractly (%s)" % e)
+            return n
+        except Raised as e:
+            R.bad(rec, rec.node, "%s: the round trip raises (%s)" % (label, e))
     return n
 
 
